@@ -35,7 +35,7 @@ type Up4Params struct {
 	Snap      bool   `json:"snap"`
 	Race      bool   `json:"race"`
 	Wide      bool   `json:"wide"`    // boundary values (C16)
-	Pfd       bool   `json:"pfd"` // the application filters are provisioned as PFDs and half of the flows name the application (C08 on UP4)
+	Pfd       bool   `json:"pfd"`     // the application filters are provisioned as PFDs and half of the flows name the application (C08 on UP4)
 	Markers   int    `json:"markers"` // C14: 1 = end markers enabled and asked for, 2 = asked for but disabled in the configuration
 }
 
